@@ -53,6 +53,7 @@ KReal = KPrim('Real', R)
 KBool = KPrim('Bool', B)
 KStr = KPrim('Str', S)
 # Names: atoms (Int-backed).  0 encodes None; valid names are > 0 (non-empty).
+KBits = KPrim('Bits', z3.BitVecSort(64))
 KName = KPrim('Name', I)
 KNameOpt = KPrim('Name', I, nullable=True)
 
@@ -169,12 +170,27 @@ class KSet(Kind):
 
 
 class KCounter(Kind):
+    """Total map key -> Int (collections.Counter; missing keys read as 0)."""
+
     def __init__(self, key):
         self.key = key
         self.name = 'Counter[%r]' % key
 
     def sorts(self):
         return [z3.ArraySort(_keysort(self.key), I)]
+
+
+class KTotal(Kind):
+    """Total map key -> value (defaultdict read-only use: subscripts never raise)."""
+
+    def __init__(self, key, val):
+        self.key = key
+        self.val = val
+        self.name = 'Total[%r,%r]' % (key, val)
+
+    def sorts(self):
+        ks = _keysort(self.key)
+        return [z3.ArraySort(ks, s) for s in self.val.sorts()]
 
 
 def is_refkind(k):
@@ -184,7 +200,7 @@ def is_refkind(k):
 def parse_kind(text, classes=(), enums=()):
     """Parse 'Dict[Name,Ref[Application]]' style kind strings."""
     text = text.strip()
-    prim = {'Int': KInt, 'Real': KReal, 'Bool': KBool, 'Str': KStr,
+    prim = {'Bits': KBits, 'Int': KInt, 'Real': KReal, 'Bool': KBool, 'Str': KStr,
             'Name': KName, 'Vec': KVec3, 'Ext': KExtReal}
     if text in prim:
         return prim[text]
@@ -231,6 +247,8 @@ def parse_kind(text, classes=(), enums=()):
         return KSet(sub[0])
     if head == 'Counter':
         return KCounter(sub[0])
+    if head == 'Total':
+        return KTotal(sub[0], sub[1])
     if head == 'Tuple':
         return KTuple(sub)
     if head == 'Enum':
